@@ -68,39 +68,40 @@ func (b *BoundedIterator) SeekToFirst() {
 	b.checkBounds()
 }
 
-// SeekToLast positions at the last key in the bounded range
+// SeekToLast positions at the last key in the bounded range, i.e. the greatest
+// key k with start <= k < end, or leaves the iterator invalid if there is none
 func (b *BoundedIterator) SeekToLast() {
-	if b.end != nil {
-		// If we have an end bound, seek to it
-		// The current implementation might not be efficient for finding the last
-		// key before the end bound, but it works for now
-		b.Iterator.Seek(b.end)
-
-		// If we landed exactly at the end bound, back up one
-		if b.Iterator.Valid() && bytes.Equal(b.Iterator.Key(), b.end) {
-			// We need to back up because end is exclusive
-			// This is inefficient but correct
-			b.Iterator.SeekToFirst()
-
-			// Scan to find the last key before the end bound
-			var lastKey []byte
-			for b.Iterator.Valid() && bytes.Compare(b.Iterator.Key(), b.end) < 0 {
-				lastKey = b.Iterator.Key()
-				b.Iterator.Next()
-			}
-
-			if lastKey != nil {
-				b.Iterator.Seek(lastKey)
-			} else {
-				// No keys before the end bound
-				b.Iterator.SeekToFirst()
-				// This will be marked invalid by checkBounds
-			}
-		}
-	} else {
+	if b.end == nil {
 		// No end bound, seek to the last key
 		b.Iterator.SeekToLast()
+
+		// Verify we're within bounds
+		b.checkBounds()
+		return
 	}
+
+	// The end bound is exclusive and the wrapped iterator cannot step back from
+	// the first key >= end, so walk forward through the range remembering the
+	// last key seen, then seek to it. This is inefficient but correct.
+	if b.start != nil {
+		b.Iterator.Seek(b.start)
+	} else {
+		b.Iterator.SeekToFirst()
+	}
+
+	var lastKey []byte
+	found := false
+	for b.Iterator.Valid() && bytes.Compare(b.Iterator.Key(), b.end) < 0 {
+		lastKey = append(lastKey[:0], b.Iterator.Key()...)
+		found = true
+		b.Iterator.Next()
+	}
+
+	if found {
+		b.Iterator.Seek(lastKey)
+	}
+	// Otherwise the range is empty and the wrapped iterator is exhausted or
+	// at a key >= end, which checkBounds reports as invalid
 
 	// Verify we're within bounds
 	b.checkBounds()
